@@ -14,6 +14,14 @@ def _rayon(n):
 
 
 PLAN = {
+    "C12": {
+        "level": "model_checking",
+        "engines": lambda tier: [_e("release", "locmc", "c12")],
+        "assumptions": [
+            "state = vector of recorded locations (reference model: Vec<String>); string alphabet of 7 admissible strings incl. the 213-byte limit and multi-byte UTF-8",
+            "a standalone manifest cannot be opened as a Container once its locations point nowhere, so the content/entry comparison runs on the container-embedded initial states only",
+        ],
+    },
     "C13": {
         "level": "exploration",
         "engines": lambda tier: [_e("release", "viewmc", "c13"), _e("dev", "viewmc", "c13")],
